@@ -91,7 +91,7 @@ def main():
             if args.suite:
                 rc, tail = run_suite(tmp, lib)
                 print('%-4s suite on mutated copy: rc=%d %s' % (mid, rc, tail))
-            env = dict(os.environ, VERIF_YAML_LIB=lib)
+            env = dict(os.environ, VERIF_YAML_LIB=lib, VERIF_STOP_ON_VIOLATION='1')
             cmd = [os.path.join(VERIF, 'check'), check, '--tier', args.tier, '--no-selfcheck', '--no-evidence']
             if args.runs:
                 cmd += ['--runs', str(args.runs)]
